@@ -908,6 +908,10 @@ class CeiloChunk(AbstractChunk):
         # Get ready to add the layering info to the data
         self.data.loc[:, 'layer_id'] = None
 
+        # The ids given to sub-layers (offset+10*group+component) must not collide with the ids of the
+        # groups that are not split: start above the largest group id (100 for fewer than 100 groups).
+        id_offset = 100 * (1 + max(int(self.data['group_id'].max()), 0) // 100)
+
         # Loop through every group, and look for sub-layers in it ...
         for ind in range(len(self.groups)):
 
@@ -962,7 +966,7 @@ class CeiloChunk(AbstractChunk):
             if ncomp > 1:
                 self.data.loc[self.data.loc[:, 'group_id'] ==
                               self._groups.at[ind, 'cluster_id'], 'layer_id'] = \
-                    100+10*ind+sub_layers_id
+                    id_offset+10*ind+sub_layers_id
 
         # Deal with the points that have not been assigned a layer id yet
         to_fill = self.data['layer_id'].isna()
